@@ -18,6 +18,8 @@ def run(F, rep):
     rep.run(dt_compress.extender_table, F, rep, "C02.3", graph_route=False)
     rep.run(dt_compress.extender_table, F, rep, "C02.3", graph_route=True)
     rep.run(dt_compress.hash_builder_table, F, rep, "C02.3")
+    # ... and the three private functions of the k-mer route interpreted together on scripted lines of k-mers
+    rep.run(dt_compress.kmer_chain_table, F, rep, "C02.3")
     rep.run(dt_compress.graph_builder_table, F, rep, "C02.3")
     # ... and the three private functions of the graph route interpreted together on scripted lines of nodes
     rep.run(dt_compress.graph_chain_table, F, rep, "C02.3")
